@@ -124,9 +124,29 @@ class Multiline:
     self
     """
     self._check_single_definition_tags(gfa_line)
+    self._check_datatypes_of_tags(gfa_line)
     for of in gfa_line.tagnames:
       self.add(of, gfa_line.get(of), gfa_line.get_datatype(of))
     return self
+
+  def _check_datatypes_of_tags(self, gfa_line):
+    """
+    Refuse a tag whose datatype differs from that of the previous values
+    (checked by add() if vlevel > 1) before anything is merged
+    """
+    if self.vlevel <= 1:
+      return
+    for of in gfa_line.tagnames:
+      prev = self.get(of)
+      if prev is None or of in self.SINGLE_DEFINITION_TAGS:
+        continue
+      prev_datatype = prev.datatype if isinstance(prev, gfapy.FieldArray) \
+                        else self.get_datatype(of)
+      if gfa_line.get_datatype(of) != prev_datatype:
+        raise gfapy.InconsistencyError(
+          "Datatype mismatch for header tag {}\n".format(of)+
+          "existing datatype: {};\n".format(prev_datatype)+
+          "new datatype: {}".format(gfa_line.get_datatype(of)))
 
   def _check_single_definition_tags(self, gfa_line):
     """
